@@ -22,6 +22,10 @@ FLAGSETS['asanrec'] = dict(cxx='g++', cflags=_COMMON + ['-O1', '-fsanitize=addre
                            env={'ASAN_OPTIONS': 'detect_leaks=0:halt_on_error=0:symbolize=0:print_legend=0:print_summary=0:allocator_may_return_null=1:handle_segv=0:handle_sigbus=0',
                                 'UBSAN_OPTIONS': 'print_stacktrace=0:halt_on_error=0'})
 
+# E3: compiled with ThreadSanitizer instrumentation but linked against the TSan-ABI implementation of engine/sched/xsched.cpp (NOT libtsan)
+FLAGSETS['tsanabi'] = dict(cxx='g++', cflags=_COMMON + ['-O1', '-fsanitize=thread', '-fno-access-control'], ldflags=['-no-pie'], env={})
+FLAGSETS['rt'] = dict(cxx='g++', cflags=['-std=c++17', '-O2', '-g', '-fno-omit-frame-pointer', '-w'], ldflags=[], env={})
+
 CHECKS = {}
 
 ENGINES = [
@@ -29,6 +33,8 @@ ENGINES = [
          kind_free_text='explicit-state search over real objects: BFS/fixed point over object images, every (state, operation, argument tuple) executed on the implementation against a reference model'),
     dict(name='xenum', path='engine/common.hpp + harness/c13_int2str.cpp and the argument-handler/log harnesses', serves_properties=['C13'],
          kind_free_text='bounded-exhaustive enumeration of whole inputs/configurations (odometer over finite domains), implementation executed on every member'),
+    dict(name='xsched', path='engine/sched/xsched.cpp + xsched.hpp, harness/c09_concurrent.cpp, c20_helpers.cpp', serves_properties=['C09', 'C20'],
+         kind_free_text='stateless preemption-bounded exploration of real threads: own TSan-ABI runtime (compiler-reported accesses), interposed pthread/guard/malloc, cooperative scheduler, fork per schedule, vector-clock race detector'),
 ]
 MANIFEST_NOTES = ('All checks execute the real implementation compiled from /repo working tree; no separate formal model, so every explored trace is an implementation trace. '
                   'Driver: bin/check <id> --tier quick|thorough. Known/fixed findings: known_findings.json. Seeded breakage used to validate detection: seeded/*/meta.json.')
@@ -208,5 +214,14 @@ CHECKS['C16'] = dict(title='Every delivered log message is rendered exactly as i
     bound={'quick': '1 item: 288 option sets x 3 separators x message product; 2 items: 288^2 x 8 separator settings x 3 messages; attribute operations <= 4',
            'thorough': '2 items x 6 messages; 3 items: 128^3 thinned option sets x 6 separator settings; attribute operations <= 5'},
     assumptions=['the automatic separator is placed between any two items, constant text included (as the in-tree creator test documents)', 'message-own attribute values are non-empty (an empty own value falls through to the global one by design)'])
+
+_SCHED = dict(engine='xsched', flags='tsanabi', level='model_checking', extra_sources=[dict(src='engine/sched/xsched.cpp', flags='rt')], extra_ldflags=['-ldl'], hang_s=120,
+    technique='stateless model checking of the real threads: cooperative scheduler over compiler-reported accesses (own TSan-ABI runtime), all schedules up to a preemption bound by depth-first re-execution in fresh processes, vector-clock data-race detection on every explored schedule')
+CHECKS['C20'] = dict(_SCHED, title='Concurrency helpers keep their contract under every schedule', harness=['harness/c20_helpers.cpp'], lib=False, deadline={'quick': 240, 'thorough': 2400},
+    level_text='5 scenarios (2 and 3 threads racing for the first Singleton access, one thread accessing twice; ManagedThread sampled by its creator and by a third thread): every schedule with <= 2-3 (quick) / 3-5 (thorough) preemptions is executed on the real code in a fresh process; per schedule: constructed once, same object, active while provably running, inactive after join, no data race, no deadlock',
+    level_note='scheduling points = every synchronisation operation + every access to a static-storage location shared by two threads (learned, reported); sequentially consistent scheduler: behaviours that need weaker orderings than data-race freedom + SC are outside; libstdc++/libc internals are trusted',
+    rule='schedule = sequence of choices at scheduling points (DFS with preemption bound, CHESS style); states = executions (complete schedules), transitions = scheduling points passed, traces = executions of the real code; non-trivial = executions with a context switch at a shared location',
+    bound={'quick': 'preemption bound 2 (singleton scenarios, observer) / 3 (managed)', 'thorough': 'preemption bound 4/3/3 (singleton) and 5/3 (managed)'},
+    assumptions=['sequentially consistent interleaving semantics; acquire/release atomics treated as SC (one atomic flag: per-location coherence decides)', 'the ManagedThread object lives in static storage so that its flag is a candidate scheduling point'])
 
 NOT_APPLICABLE = [e for e in NOT_APPLICABLE if e['property_id'] not in CHECKS]
